@@ -167,9 +167,11 @@ CORE = {
 TIERS = {
     # mc: list of (family, client action budget); rand: list of (family, runs, shards)
     'quick': dict(mc=[('hand+core6', 1), ('handseq', 2)], mc_workers=8, mc_timeout=900,
-                  rand=[('hand', 1200, 4), ('core6', 1800, 6)], rand_budget=4, rand_pact=0.35,
+                  explore=[('handseq', 2, 10, 2)],      # (family, client budget, processes, files per process)
+                  rand=[('hand', 600, 2), ('core6', 1800, 4)], rand_budget=4, rand_pact=0.35,
                   nat_family='hand+core6', nat_runs=1000, nat_shards=2),
     'thorough': dict(mc=[('hand+core7', 2), ('handseq', 3)], mc_workers=12, mc_timeout=7200,
+                     explore=[('handseq', 3, 14, 4), ('hand', 1, 14, 4), ('core6', 1, 8, 2)],
                      rand=[('hand', 12000, 4), ('core7+branchy', 40000, 10)], rand_budget=5,
                      rand_pact=0.35, nat_family='hand+core7', nat_runs=20000, nat_shards=4),
 }
@@ -340,6 +342,16 @@ def record_traces(tier, seed, key):
                                '--pact', str(t['rand_pact']), '--budget', str(t['rand_budget']), '--kinds', kinds,
                                '--workdir', d + '/run']))
             n += 1
+    # 2b. exhaustive exploration of the IMPLEMENTATION for the small families: every reachable
+    #     (state, choice) pair under the gate, up to the client budget
+    for famname, budget, shards, split in t.get('explore', []):
+        fam = family(famname)
+        for i in range(shards):
+            out = '%s/expl-%s-b%d-%02d.ndjson' % (d, famname, budget, i)
+            jobs.append(([out + '.%d' % k for k in range(split)],
+                         [HARNESS, 'explore', '--models', fam, '--out', out, '--budget', str(budget),
+                          '--kinds', ','.join(ALL_KINDS), '--shard', str(i), '--shards', str(shards),
+                          '--split', str(split), '--max-runs', '200000', '--workdir', d + '/run']))
     fam = family(t['nat_family'])
     nmodels = count_lines(fam)
 
@@ -353,14 +365,16 @@ def record_traces(tier, seed, key):
                            '--workdir', d + '/run']))
 
     def run(job):
-        out, cmd = job
-        p = sh(cmd, timeout=3600)
-        if p.returncode != 0 or not os.path.exists(out):
+        outs, cmd = job
+        if isinstance(outs, str):
+            outs = [outs]
+        p = sh(cmd, timeout=900 if tier == 'quick' else 5400)
+        if p.returncode != 0 or not all(os.path.exists(o) for o in outs):
             raise ToolError('harness failed: %s\n%s' % (' '.join(cmd), p.stderr[-3000:]))
-        return out
+        return [o for o in outs if os.path.getsize(o) > 0]
 
     with concurrent.futures.ThreadPoolExecutor(max_workers=min(NCPU, 14)) as ex:
-        files = list(ex.map(run, jobs))
+        files = [f for fs in ex.map(run, jobs) for f in fs]
     shutil.rmtree(d + '/run', ignore_errors=True)
     return files
 
@@ -374,15 +388,16 @@ def ensure_traces(tier, seed):
         log('traces: cached', key)
         return json.load(open(res_path))
     # keep the cache small: drop older trace sets
-    for old in glob.glob(CACHE + '/traces/*'):
-        if os.path.basename(old) != key and time.time() - os.path.getmtime(old) > 6 * 3600:
-            shutil.rmtree(old, ignore_errors=True)
+    olds = sorted((p for p in glob.glob(CACHE + '/traces/*') if os.path.basename(p) != key),
+                  key=os.path.getmtime)
+    for old in olds[:-1]:
+        shutil.rmtree(old, ignore_errors=True)
     t0 = time.time()
     files = record_traces(tier, seed, key)
     log('traces: recorded %d files in %.0fs' % (len(files), time.time() - t0))
 
     def validate(f):
-        tag = 'tr-' + os.path.basename(f).replace('.ndjson', '')
+        tag = 'tr-' + os.path.basename(f).replace('.ndjson', '').replace('.', '_')
         if os.path.basename(f).startswith('nat-'):
             # natural runs record one step per quiescent point: nothing for STRICT to match
             n = count_lines(f)
@@ -393,7 +408,7 @@ def ensure_traces(tier, seed):
         o = observe_validate(f, tag)
         return dict(file=f, strict=s, observe=o)
 
-    with concurrent.futures.ThreadPoolExecutor(max_workers=min(NCPU, 12)) as ex:
+    with concurrent.futures.ThreadPoolExecutor(max_workers=min(NCPU, 14)) as ex:
         results = list(ex.map(validate, files))
     res = dict(key=key, dir=d, files=results, wall=time.time() - t0)
     with open(res_path, 'w') as fh:
